@@ -144,3 +144,13 @@ claim("C20",
       "trajectory, requested = reported = applied noise levels (zero, default, explicit), and the same consistency on the "
       "random-trajectory route.",
       "TLA+ SyntheticSensors + TLC + exact replay (bigint mirror)", "DESIGN.md section 5, C20")
+claim("C19",
+      "CallerMemory.tla models caller-owned buffers with content ids and well-behaved calls (memory unchanged, result a function of "
+      "(callable, argument contents)); TLC checks Repeatable and the action property CallsDoNotWrite over all call/write "
+      "interleavings of 2 buffers x 2 contents x 2 callables; the catalogue of public callables is built by introspection "
+      "(orientation, quaternion, dcm, frames, mathfuncs, geometry, metrics; every public method and property of Quaternion / "
+      "QuaternionArray / DCM called twice on the same object; constructors, estimate and update* of 19 estimator classes with "
+      "caller-owned q0 / b0 / P / weights) with unit and non-normalised / degree-sized arguments; every call is logged with SHA-1 "
+      "content ids of all array arguments (and the object) before and after and of the result, and TLC validates the log "
+      "(TraceCallerMemory).",
+      "TLA+ CallerMemory + TLC + trace validation of introspected calls", "DESIGN.md section 5, C19")
